@@ -1,16 +1,28 @@
 /-
   C02 — the down migration undoes the up migration exactly.
   Proved for every input: the column-order core (`columns`, `up_down_identity`): the down walk over the merged list puts
-  every restored column back at its original position, for column lists of any length.  Missing for the full
-  statement: as for C01 (refinement Impl → Abs, attribute/index/foreign-key lemmas); covered meanwhile by correspondence +
-  the executable predicate `Spec.c02` on the implementation's printed down migration.
+  every restored column back at its original position, for column lists of any length; its refinement from the Impl
+  walk and `Table.Diff` (`printed_columns`, `diffed_columns`), end to end from scripts (`columns_from_scripts`); and
+
+  * `indexes_and_keys_from_scripts` — **the index and foreign-key clauses of the down migration, from scripts**: for two
+    scripts of any length (vocabulary of `Stmt.elemSafe`) the reference engine accepts, loaded by the MySQL reader model
+    and diffed, the down walk of the record of a table present on both sides prints — no column dropped — exactly
+    `Abs.Idx.emitDown` of the reference engine's two index lists (an index the old side does not have is dropped, a
+    redefined one is dropped and re-created *as the old side defines it* — the `previous` record `Table.Diff` keeps —, an
+    old-only one is created), which turns the *new* index list back into the *old* one up to order, well-formed at
+    every step; likewise the foreign keys (`Abs.Idx.emitDownKeep`), unless a key is redefined in place.
+
+  Missing for the full statement: as for C01 (column attributes, the primary key, drop suppression); covered by
+  correspondence + the executable predicate `Spec.c02` on the implementation's printed down migration.
 -/
 import SqlizeModel.Abs.Columns
 import SqlizeModel.Proofs.WalkRefine
 import SqlizeModel.Proofs.MergeRefine
 import SqlizeModel.Proofs.EndToEnd
+import SqlizeModel.Proofs.EndToEndElems
 import SqlizeModel.Impl.Api
 import SqlizeModel.Spec.Scope
+import SqlizeModel.Props.C01
 
 namespace Sqlize.C02
 open Sqlize Sqlize.Spec
@@ -70,5 +82,29 @@ theorem up_down_identity (N O : List Abs.Name) (hN : N.Nodup) (hO : O.Nodup) (hc
 
 example : Abs.emitDown (Abs.tagged ["z", "a", "b", "e", "d", "f"] ["a", "b", "c", "d"]) =
     [.dropCol "z", .addCol "c" (some "b"), .dropCol "e", .dropCol "f"] := by decide
+
+/-- index and foreign-key clauses of C02 from scripts to printed statements (MySQL reader model) -/
+theorem indexes_and_keys_from_scripts (g : Globals) (hg : g.dialect = .mysql) (rc : Bool)
+    (old new : List Stmt) (dbO dbN : DB) (ho : old.all Stmt.elemSafe = true) (hn : new.all Stmt.elemSafe = true)
+    (heo : execAll rc [] old = some dbO) (hen : execAll rc [] new = some dbN)
+    (d : Migration) (hd : loadAndDiff g old new = .ok d)
+    (t : String) (tbO tbN : TableSpec) (hfo : dbO.find t = some tbO) (hfn : dbN.find t = some tbN) :
+    ∃ td ∈ d.tables, td.name = t ∧ td.action = .none ∧
+      (∃ ss, Table.walkIdx g t false [] td.idxs = .ok ss ∧
+        ss.filterMap idxStmt = Abs.Idx.emitDown tbN.idxs tbO.idxs ∧
+        ∃ R, Abs.Idx.execAll tbN.idxs (ss.filterMap idxStmt) = some R ∧ R.Perm tbO.idxs) ∧
+      ((Table.walkFk t false [] td.fks).filterMap fkStmt = Abs.Idx.emitDownKeep tbN.fks tbO.fks ∧
+        ((∀ s ∈ tbN.fks, ∀ o ∈ tbO.fks, s.name = o.name → s = o) →
+          ∃ R, Abs.Idx.execAll tbN.fks ((Table.walkFk t false [] td.fks).filterMap fkStmt) = some R ∧ R.Perm tbO.fks)) := by
+  obtain ⟨td, h1, h2, h3, _, _, h6, h7⟩ := elems_end_to_end g hg rc old new dbO dbN ho hn heo hen d hd t tbO tbN hfo hfn
+  exact ⟨td, h1, h2, h3, h6, h7⟩
+
+-- non-vacuity: the scripts of C01's example; the down walk restores the old definition of the redefined index
+example : ∃ d, loadAndDiff {} C01.exOldE C01.exNewE = .ok d ∧
+    (d.tables.map (fun t => ((Table.walkIdx {} t.name false [] t.idxs).toOption.map (·.filterMap idxStmt),
+                             (Table.walkFk t.name false [] t.fks).filterMap fkStmt))) =
+      [(some [], []),
+       (some [.drop "i_redef", .create ⟨"i_redef", ["a", "b"], true, "BTREE"⟩, .drop "i_new", .create ⟨"i_old", ["b"], false, "HASH"⟩],
+        [.drop "fk_new", .create ⟨"fk_old", "a", "u", "id"⟩])] := ⟨_, by rfl, by decide⟩
 
 end Sqlize.C02
